@@ -16,6 +16,7 @@ from haiway import ctx
 from hv import env, vloop
 from hv import progs as P
 from hv.core import Outcome
+from hv.props.c03 import _gc_fence
 
 PID = "C11"
 LEVEL = "exploration"
@@ -27,6 +28,7 @@ RULE = (
     "fully, with early break + aclose(), abandoned (dropped + gc) or closed before the first item; non-trivial = "
     "creation context differs from consumption context, or early termination, or a nested stream; distinct = distinct case"
 )
+RULE += '; items may be None / falsy values; a quarter of the cases run a garbage collection before every pull'
 LEVEL_TEXT = (
     "Four sub-claims per generated case: (a) the consumer receives exactly the items then the generator's end or its "
     "exception object; (b) probes inside the generator equal the creation environment; (c) the consumer's context "
@@ -81,6 +83,17 @@ class Ctx:
         return {"state": stt, "metrics": m if (m is None or isinstance(m, str)) else id(m), "group": g if (g is None or isinstance(g, str)) else id(g)}
 
 
+_FALSY_ITEMS = [None, 0, "", (), False]
+
+
+def _item(tag, i, case):
+    """the i-th item of the stream: usually a tagged tuple; with "falsy_items" every second item is a falsy value or None
+    (items are values, none of them is a sentinel)"""
+    if case.get("falsy_items") and i % 2 == 1:
+        return _FALSY_ITEMS[(i // 2) % len(_FALSY_ITEMS)]
+    return (tag, i)
+
+
 def run_case(case) -> Outcome:  # noqa: C901, PLR0912, PLR0915
     out = Outcome()
     n, end, consume, mode = case["items"], case["end"], case["consume"], case["mode"]
@@ -90,6 +103,8 @@ def run_case(case) -> Outcome:  # noqa: C901, PLR0912, PLR0915
     if consume == "split_tasks" and mode != "full":
         consume = "other_task"
     K = Ctx()
+    if case.get("gc_mid"):
+        _gc_fence()  # keeps the collections inside this case cheap
     obs = {"gen_probes": [], "got": [], "end": None, "cons_fps": [], "events": [], "err": None}
     captured: list = []
     handler = P.Capture(captured)
@@ -122,9 +137,9 @@ def run_case(case) -> Outcome:  # noqa: C901, PLR0912, PLR0915
                 if case.get("gen_span"):
                     # the generator's own block SPANS the yield (legal): it must be gone again once the stream is over
                     with ctx.updated(K.state("A", 80 + i)):
-                        yield (tag, i)
+                        yield _item(tag, i, case)
                 else:
-                    yield (tag, i)
+                    yield _item(tag, i, case)
             obs["gen_probes"].append(("end", K.fp()["state"]))
             if end == "raise":
                 raise gen_err
@@ -134,6 +149,8 @@ def run_case(case) -> Outcome:  # noqa: C901, PLR0912, PLR0915
             while True:
                 if limit is not None and limit <= 0:
                     return False
+                if case.get("gc_mid"):
+                    gc.collect()
                 try:
                     item = await it.__anext__()
                 except StopAsyncIteration:
@@ -288,7 +305,7 @@ def run_case(case) -> Outcome:  # noqa: C901, PLR0912, PLR0915
         out.violate("a", f"C11.a/hang/{tag}", "")
         return out
     # ---- (a) items and outcome
-    want_all = [("s", i) for i in range(n)]
+    want_all = [_item("s", i, case) for i in range(n)]
     if mode == "timeout":
         if case.get("gen_suspends") and n >= 2:
             want, want_end = want_all[:1], "timed_out"
@@ -375,6 +392,8 @@ def run_case(case) -> Outcome:  # noqa: C901, PLR0912, PLR0915
         classes.append("nested-stream")
     if end == "raise":
         classes.append("generator-raises")
+    if case.get("gc_mid"):
+        classes.append("gc-between-items")
     if consume in ("other_task", "split_tasks"):
         classes.append("other-task")
     out.classes = classes
@@ -387,6 +406,9 @@ def strategy(tier):
         lambda n, end, gn, gr, ns, ci, co, mo, ba, gs, gsp: {
             "items": n, "end": end, "gen_nested": gn, "gen_record": gr, "nested_stream": ns, "create_in": ci, "consume": co, "mode": mo, "break_after": ba,
             "gen_suspends": gs or mo == "timeout", "gen_span": gsp, "swallowed_cancel": co == "other_task" and ba % 2 == 1,
+            "falsy_items": n >= 2 and (n + ba) % 3 == 0,
+            # a garbage collection before every pull: a scope that was left and waits for the stream is held by the stream alone
+            "gc_mid": (n + ba) % 4 == 1,
         },  # fmt: skip
         st.one_of(st.integers(0, 4), st.integers(0, 4), st.integers(5, 14)),  # also long streams (many nested scopes / records)
         st.sampled_from(["stop", "stop", "raise"]),
